@@ -248,24 +248,53 @@ impl Node {
     /// not terminate when the DOM tree contains cycles and it makes no attempts to guard
     /// against that.
     fn clone_with_subtree(&self, parent: Option<Weak<Self>>) -> Rc<Self> {
-        let clone_node = |node: &Self, parent: Option<Weak<Self>>| {
-            Rc::new(Self {
-                parent: Cell::new(parent),
-                data: node.data.clone(),
-                children: RefCell::new(Vec::new()),
-            })
-        };
-        let root = clone_node(self, parent);
-        // Pairs of (original node, its clone) whose children are yet to be cloned.
-        let mut pending: Vec<(Rc<Self>, Rc<Self>)> = self
-            .children
-            .borrow()
-            .iter()
-            .rev()
-            .map(|child| (child.clone(), root.clone()))
-            .collect();
+        // Pairs of (original node, parent of its clone) that are yet to be cloned.
+        let mut pending: Vec<(Rc<Self>, Rc<Self>)> = Vec::new();
+        // Copies one node without its children. The contents of a template element are a
+        // tree of their own: the copy gets a contents document of its own (sharing the
+        // original's would tie the two templates together), filled like any other parent.
+        let clone_node =
+            |node: &Self, parent: Option<Weak<Self>>, pending: &mut Vec<(Rc<Self>, Rc<Self>)>| {
+                let data = node.data.clone();
+                if let NodeData::Element {
+                    ref template_contents,
+                    ..
+                } = data
+                {
+                    let mut template_contents = template_contents.borrow_mut();
+                    if let Some(original) = template_contents.take() {
+                        let contents = Rc::new(Self {
+                            parent: Cell::new(None),
+                            data: original.data.clone(),
+                            children: RefCell::new(Vec::new()),
+                        });
+                        pending.extend(
+                            original
+                                .children
+                                .borrow()
+                                .iter()
+                                .rev()
+                                .map(|child| (child.clone(), contents.clone())),
+                        );
+                        *template_contents = Some(contents);
+                    }
+                }
+                Rc::new(Self {
+                    parent: Cell::new(parent),
+                    data,
+                    children: RefCell::new(Vec::new()),
+                })
+            };
+        let root = clone_node(self, parent, &mut pending);
+        pending.extend(
+            self.children
+                .borrow()
+                .iter()
+                .rev()
+                .map(|child| (child.clone(), root.clone())),
+        );
         while let Some((original, clone_parent)) = pending.pop() {
-            let clone = clone_node(&original, Some(Rc::downgrade(&clone_parent)));
+            let clone = clone_node(&original, Some(Rc::downgrade(&clone_parent)), &mut pending);
             clone_parent.children.borrow_mut().push(clone.clone());
             pending.extend(
                 original
